@@ -58,13 +58,13 @@ def c03Ctor (dist : String) (ps : List String) : C03Ctor :=
     | some (n, p) => if Binomial.valid p then .ok (Binomial.sample F c03IFuel n p) else .panic
   | "exp" => match c03Parse pFloat ps with
     | none => .bad
-    | some l => if Exponential.valid l then .ok (total (Exponential.sample l)) else .panic
+    | some l => if Exponential.valid l then .ok (Exponential.sample F l) else .panic
   | "gumbel" => match c03Parse c03Two ps with
     | none => .bad
-    | some (mu, b) => if Gumbel.valid b then .ok (total (Gumbel.sample mu b)) else .panic
+    | some (mu, b) => if Gumbel.valid b then .ok (Gumbel.sample F mu b) else .panic
   | "pareto" => match c03Parse c03Two ps with
     | none => .bad
-    | some (a, m) => if Pareto.valid a m then .ok (total (Pareto.sample a m)) else .panic
+    | some (a, m) => if Pareto.valid a m then .ok (Pareto.sample F a m) else .panic
   | "uniform" => match c03Parse c03Two ps with
     | none => .bad
     | some (a, b) => if Uniform.valid a b then .ok (total (UniformF.sample a b)) else .panic
